@@ -31,9 +31,9 @@ func (BadValue) ToTerraformValue(context.Context) (tftypes.Value, error) {
 	return tftypes.Value{}, fmt.Errorf("bad value")
 }
 func (BadValue) Equal(o attr.Value) bool { _, ok := o.(BadValue); return ok }
-func (BadValue) IsNull() bool           { return false }
-func (BadValue) IsUnknown() bool        { return false }
-func (BadValue) String() string         { return "bad" }
+func (BadValue) IsNull() bool            { return false }
+func (BadValue) IsUnknown() bool         { return false }
+func (BadValue) String() string          { return "bad" }
 
 // TypeToTT projects an attr.Type.
 func TypeToTT(t attr.Type) J {
@@ -54,6 +54,10 @@ func TypeToTT(t attr.Type) J {
 		return J{"k": "prim", "ty": "time"}
 	case support.DurationType:
 		return J{"k": "prim", "ty": "duration"}
+	case support.OvrStringType:
+		return J{"k": "prim", "ty": "ovrstring"}
+	case support.OvrIntType:
+		return J{"k": "prim", "ty": "ovrint64"}
 	}
 	switch t {
 	case types.StringType:
@@ -97,6 +101,10 @@ func TTToType(tt J) attr.Type {
 			return support.TimeType{}
 		case "duration":
 			return support.DurationType{}
+		case "ovrstring":
+			return support.OvrStringType{}
+		case "ovrint64":
+			return support.OvrIntType{}
 		}
 	}
 	panic(fmt.Sprintf("TTToType: %v", tt))
@@ -125,6 +133,10 @@ func ValueToTV(v attr.Value) J {
 		return prim("time", x.Null, x.Unknown, canonTime(x.Value))
 	case support.DurationValue:
 		return prim("duration", x.Null, x.Unknown, strconv.FormatInt(int64(x.Value), 10))
+	case support.OvrStringValue:
+		return prim("ovrstring", x.Null, x.Unknown, hex.EncodeToString([]byte(x.Value)))
+	case support.OvrIntValue:
+		return prim("ovrint64", x.Null, x.Unknown, strconv.FormatInt(x.Value, 10))
 	case types.Object:
 		attrs := J{}
 		for n, e := range x.Attrs {
@@ -172,6 +184,18 @@ func TVToValue(tv J) attr.Value {
 				panic(err)
 			}
 			return types.String{Null: null, Unknown: unk, Value: string(b)}
+		case "ovrstring":
+			b, err := hex.DecodeString(s)
+			if err != nil {
+				panic(err)
+			}
+			return support.OvrStringValue{Null: null, Unknown: unk, Value: string(b)}
+		case "ovrint64":
+			i, err := strconv.ParseInt(s, 10, 64)
+			if err != nil {
+				panic(err)
+			}
+			return support.OvrIntValue{Null: null, Unknown: unk, Value: i}
 		case "int64":
 			i, err := strconv.ParseInt(s, 10, 64)
 			if err != nil {
@@ -250,13 +274,13 @@ func TVToTerraform(ctx context.Context, tv J, t attr.Type) tftypes.Value {
 	case "prim":
 		s := tv["v"].(string)
 		switch tv["ty"].(string) {
-		case "string":
+		case "string", "ovrstring":
 			b, err := hex.DecodeString(s)
 			if err != nil {
 				panic(err)
 			}
 			return tftypes.NewValue(tt, string(b))
-		case "int64":
+		case "int64", "ovrint64":
 			i, err := strconv.ParseInt(s, 10, 64)
 			if err != nil {
 				panic(err)
